@@ -15,33 +15,46 @@ PROPS_MODULE = "NumbersModel.Props.C13"
 THEOREMS = [f"NumbersModel.Props.C13.{t}" for t in (
     "tables_as_modelled", "decoration_only", "decoration_independent", "currency_decoration_only",
     "grouping_only_inserts", "sign_style", "places_exact", "decimal_reads_back", "round_sig_nearest",
-    "auto_reads_back", "scientific_mantissa_partial", "base_reads_back", "base_no_spurious_zero",
+    "auto_reads_back", "scientific_mantissa", "base_reads_back", "base_no_spurious_zero",
     "base_rounds_nearest", "base_format_cases", "twos_complement_value", "fraction_fixed_nearest",
-    "fraction_parts_normal_form", "fraction_ndigit_partial", "rating_stars")]
-PARTIAL = {
-    "NumbersModel.Props.C13.fraction_ndigit_partial":
-        "proved: whenever limit_denominator returns, 1 <= denominator <= 10^N - 1. Missing: the loop always returns for a "
-        "fraction in lowest terms (no ZeroDivisionError, fuel suffices) and the result is the closest admissible fraction "
-        "(optimality of continued-fraction convergents); both exercised by correspondence + exhaustive oracle search",
-    "NumbersModel.Props.C13.scientific_mantissa_partial":
-        "proved: the mantissa is rounded to places+1 significant digits, nearest, ties to even. Missing: the rendered text "
-        "d.ddd E+-xx read back equals mantissa * 10^exponent (exponent arithmetic and text layout are only compared)",
-}
+    "fraction_parts_normal_form", "fraction_ndigit", "limit_denominator_best", "fraction_ndigit_total", "rating_stars",
+    # custom number patterns (Model/CustomFmt.lean)
+    "format_types_as_modelled", "custom_percent_scale", "custom_digits_read_back", "custom_sign", "custom_number_text_alphabet",
+    "custom_literals_pass_through", "custom_padding_only_pads", "custom_total", "custom_builder_well_formed",
+    "custom_api_total", "custom_scientific", "custom_dispatch")]
+PARTIAL = {}   # fraction_ndigit and scientific_mantissa are now proved in full (Lemmas/LimitDen.lean, Lemmas/SciFmt.lean)
 RULE = ("every case is one (value, format) pair sent through Table.write + Table.set_cell_formatting + Cell.formatted_value "
         "and through the model; special values (ties at every place 0..10, carries, powers of ten +-1 unit in the 15th digit, "
         "zero, tiny negatives, negatives of all) x the full product places{0..10,auto} x separator x 4 negative styles; "
         "every currency x accounting x 3 values; bases 2..36 x places 0..8 x minus/two's complement x integers, ties, powers "
-        "of two; 9 fraction accuracies x special + seeded values; seeded <=15-digit decimals x sampled formats. A case is "
-        "non-trivial once per distinct request line.")
+        "of two; 9 fraction accuracies x special + seeded values; seeded <=15-digit decimals x sampled formats. Custom "
+        "patterns: every archive add_custom_format can build (3x3 paddings x 0..10 integer x 0..10 decimal tokens x separator: "
+        "archive fields compared exhaustively; rendering for 0..6 x 0..6 and a few larger) x probe + sampled special values; 25 "
+        "representative API patterns x the whole special-value pool; every distinct custom number archive of the reference "
+        "workbooks and 25 hand-made literal patterns (quoted text holding digits / # 0 . , / a repeated spec, currency glyph, "
+        "percent) x values; _expand_quotes on all strings of length <= 6 over {quote, letter, digit}; format(int,'0w,'); text "
+        "patterns after save/reopen; the renderer chosen by Cell.formatted_value for every format kind and for every distinct "
+        "(cell type, format ids) combination of the reference workbooks. A case is non-trivial once per distinct request line.")
 MANIFEST = {
     "text": "Core proved, glue assumed: Lean theorems about an exact-decimal model of _format_decimal/_format_currency/"
-            "_format_scientific/_format_base/_twos_complement/_format_fraction: decimal_reads_back (the digits shown, read "
-            "back, are the value rounded half-up to the places shown, within half a unit), places_exact, decoration_only "
-            "(grouping, sign style, parentheses, percent, currency symbol, accounting layout never change a digit), "
-            "base_reads_back + twos_complement_value, fraction_fixed_nearest; third-party sigfig / float formatting / "
-            "Fraction.limit_denominator enter as stated assumptions exercised by the correspondence on every run.",
+            "_format_scientific/_format_base/_twos_complement/_format_fraction and of the custom number pattern renderer "
+            "(_decode_number_format, _expand_quotes, _decode_text_format, the dispatch in Cell.formatted_value/_custom_format, "
+            "the archive builder add_custom_decimal_format_archive): decimal_reads_back (the digits shown, read back, are the "
+            "value rounded half-up to the places shown, within half a unit), places_exact, decoration_only (grouping, sign "
+            "style, parentheses, percent, currency symbol, accounting layout never change a digit), base_reads_back + "
+            "twos_complement_value, fraction_fixed_nearest, fraction_ndigit (Fraction.limit_denominator as CPython 3.12 writes "
+            "it always returns for a fraction in lowest terms, denominator in 1..10^N-1, lowest terms, and no admissible "
+            "fraction is strictly closer), scientific_mantissa (the text d.dddE+xx read back is mantissa*10^exponent, "
+            "normalised, nearest/ties-to-even, carry and zero included), custom_digits_read_back (literal text + number text + "
+            "literal text; the number text reads back as the scaled value rounded half-up to the decimals the pattern shows), "
+            "custom_literals_pass_through (quoted text of any characters appears unchanged; the spec is never searched or "
+            "replaced inside it), custom_padding_only_pads, custom_total + custom_builder_well_formed + custom_api_total (no "
+            "exception for any value and any archive the library's own builder can produce; explicit well-formedness "
+            "predicate otherwise), custom_dispatch; third-party sigfig / float formatting / float products enter as stated "
+            "assumptions exercised by the correspondence on every run.",
     "note": "sigfig is modelled for the call shapes used (round half-up on decimal digits); %E and round() as correctly "
-            "rounded ties-to-even; custom number patterns (_decode_number_format) are not modelled.",
+            "rounded ties-to-even; the float products value*scale_factor(*100.0) of custom patterns are supplied to the model "
+            "as exact decimals of their repr; the model mirrors the code after fixes/C13-*.patch.",
     "technique": "Lean 4 proof over exact decimals + differential correspondence through the real API + numeric read-back oracle",
 }
 ASSUMPTIONS = [
@@ -51,6 +64,13 @@ ASSUMPTIONS = [
     "format(float, '.pE') and round(float) are correctly rounded, ties to even, on the exact binary value (compared)",
     "Decimal(repr(x)) identifies the float x; values written through the API carry <= 15 significant digits",
     "denominator * (value - int(value)) in _float_to_fraction: the float product is supplied to the model as an exact ratio",
+    "custom patterns: value * scale_factor and (that) * 100.0 are float products; both are supplied to the model as "
+    "Decimal(repr(product)) (positional rendering) and Decimal(product) (scientific spec); the oracle compares with the "
+    "exact decimal product and allows 2^-50 relative slack at a rounding boundary when a scale or percent applies",
+    "format(int, '0w,') zero-fills with grouping to the least number of digits whose grouped length is >= w (compared "
+    "exhaustively for w <= 15 on 15 integers); format(int, ','), str.rjust/ljust/rstrip/partition/split/replace as documented",
+    "re.sub(r\"'[^']*'\", ...) and re.search(r'([#0.,]+(E[+]\\d+)?)', ...) are leftmost/greedy; \\d is the generated digit table",
+    "the archive fields of a custom format are copied from the real TSK.FormatStructArchive (no protobuf is modelled)",
 ]
 
 NEG_STYLES = (0, 1, 2, 3)
@@ -504,6 +524,11 @@ def _run(ctx: Ctx):
             ctx.violation("rating-stars", f"rating {x!r} displays {text!r}", {"value": repr(x), "format": "rating"})
     ctx.correspond("star rating: 0..5 and out-of-range values", req, out, exhaustive=True)
 
+    # --- custom number patterns, text patterns, dispatch (checks/c13_custom.py) -------------------------------------------
+    from checks import c13_custom
+    c13_custom.run_custom(ctx, specials, seeded)
+    c13_custom.run_text_and_dispatch(ctx)
+
     # --- the third-party assumptions, directly ---------------------------------------------------------------------------
     bad = 0
     for x in specials + seeded:
@@ -517,6 +542,9 @@ def replay(data):
     warnings.showwarning = lambda *a, **k: None
     from numbers_parser import FractionAccuracy, NegativeNumberStyle
     i = dict(data.get("input", {}))
+    if str(i.get("format", "")).startswith("custom"):
+        from checks import c13_custom
+        return c13_custom.replay_custom(i)
     x = eval(i.pop("value"), {"__builtins__": {}}, {})  # repr of an int/float produced by this module
     kind = i.pop("format")
     if "negative_style" in i:
